@@ -18,7 +18,7 @@ PROPS = {
     'C01': {
         'modes': [(0, 4, 'random'), (0, 4, 'pattern'), (1, 4, 'random'), (1, 4, 'pattern')],
         'budget': {'quick': 60, 'thorough': 420},
-        'deciding': {'C01.reduce': (500, 5000), 'C01.rule': (75, 750), 'C01.nary': (75, 750)},
+        'deciding': {'C01.reduce': (500, 5000), 'C01.rule': (75, 750), 'C01.nary': (75, 750), 'C01.operand-unchanged': (100, 1000)},
         'require_hist': {'quick': {'C01.rule.fired': RULES_ALL}, 'thorough': {'C01.rule.fired': RULES_ALL}},
         'rule': 'cases = seeded random well-typed expression trees (all operator classes, all combinators) and '
                 'documented patterns embedded in inert contexts; each case is reduced (also its transpose, its '
@@ -63,7 +63,7 @@ PROPS['C03'] = {
 PROPS['C04'] = {
     'modes': [(0, 8), (1, 8)],
     'budget': {'quick': 60, 'thorough': 400},
-    'deciding': {'C04.as_matrix': (375, 3750), 'C04.linearity': (175, 1750), 'C04.matvec': (175, 1750)},
+    'deciding': {'C04.as_matrix': (375, 3750), 'C04.linearity': (175, 1750), 'C04.matvec': (175, 1750), 'C04.complex': (40, 400)},
     'require_hist': {'quick': {'C04.as_matrix.impl': AS_MATRIX_IMPLS}, 'thorough': {'C04.as_matrix.impl': AS_MATRIX_IMPLS}},
     'rule': 'cases = seeded atoms and composites; for each, as_matrix() (specialised override) and the generic '
             'AbstractLinearOperator.as_matrix are called under the monitor and compared with mv on all basis vectors; '
